@@ -35,6 +35,7 @@ func main() {
 			raceCompile(h)
 		case "C33race":
 			raceIncremental(h)
+			raceCancelledWaiter(h)
 		case "C38race":
 			raceIntern(h)
 		default:
@@ -190,7 +191,7 @@ func (q dagNode) Execute(t *incremental.Task) (int, error) {
 // incremental.Run calls on one executor with different root sets, followed by an eviction and a
 // second wave, for parallelism 1..4.
 func raceIncremental(h *hx.H) {
-	h.Rule = "every DAG on 4 nodes (edges i->j, i<j: 64 graphs) x parallelism 1..4: two concurrent incremental.Run calls with different roots on one executor, an eviction, and two more concurrent runs, under the Go race detector; results must equal the sequential evaluation"
+	h.Rule = "every DAG on 4 nodes (edges i->j, i<j: 64 graphs) x parallelism 1..4: two concurrent incremental.Run calls with different roots on one executor, an eviction, and two more concurrent runs; plus 20 rounds of a Run that is cancelled while it waits for a query led by another Run; under the Go race detector; results must equal the sequential evaluation"
 	for g := 0; g < 64; g++ {
 		var adj [4][4]bool
 		bit := 0
@@ -249,6 +250,52 @@ func raceIncremental(h *hx.H) {
 			exec.Evict(nodeKey{3})
 			wave("after-evict")
 		}
+	}
+}
+
+type gatedNode struct {
+	gate <-chan struct{}
+	i    int
+}
+
+func (q gatedNode) Key() any { return nodeKey{100 + q.i} }
+
+func (q gatedNode) Execute(t *incremental.Task) (int, error) {
+	if q.i == 1 {
+		<-q.gate // the slow query: stays pending until the gate opens
+	}
+	return q.i, nil
+}
+
+// raceCancelledWaiter: Run A leads a query that stays pending; Run B asks for it as its second
+// query (so it waits for it on a goroutine of its own) and is cancelled while it waits; the
+// query finishes later. Whatever B gets back, it must not touch the result while A writes it.
+func raceCancelledWaiter(h *hx.H) {
+	for round := 0; round < 20; round++ {
+		h.Eval(1)
+		h.State(1)
+		h.Trans(2)
+		exec := incremental.New(incremental.WithParallelism(4))
+		gate := make(chan struct{})
+		var wg sync.WaitGroup
+		wg.Add(1)
+		started := make(chan struct{})
+		go func() {
+			defer wg.Done()
+			close(started)
+			_, _, _ = incremental.Run(context.Background(), exec, incremental.Query[int](gatedNode{gate, 1}))
+		}()
+		<-started
+		time.Sleep(5 * time.Millisecond) // let A become the leader of query 1
+		ctx, cancel := context.WithCancel(context.Background())
+		wg.Add(1)
+		go func() {
+			defer wg.Done()
+			_, _, _ = incremental.Run(ctx, exec, incremental.Query[int](gatedNode{gate, 0}), incremental.Query[int](gatedNode{gate, 1}))
+		}()
+		time.AfterFunc(10*time.Millisecond, cancel)
+		time.AfterFunc(40*time.Millisecond, func() { close(gate) }) // opened by the clock, not by B's return
+		wg.Wait()
 	}
 }
 
